@@ -3,6 +3,7 @@ package main
 import (
 	"encoding/binary"
 	"fmt"
+	"strings"
 
 	"github.com/tetratelabs/wazero/verif/wb"
 )
@@ -12,7 +13,7 @@ import (
 // Every pointer any letter passes lies inside the first winSize bytes of guest memory ("the window").
 // The trace records the whole window after every call, so a stray write anywhere in it is seen.
 const (
-	winSize = 0x200
+	winSize = 0x340
 
 	pR1      = 0x000 // 8-byte result slot
 	pR2      = 0x008 // 8-byte result slot
@@ -31,6 +32,8 @@ const (
 	pSubWr   = 0x160 // subscription: fd_write on fd 1
 	pMsg     = 0x190 // marker text written to stdout/stderr
 	pMsg64   = 0x1B0 // 64 bytes of marker text
+	pSubList = 0x200 // 4 x 48 bytes: subscription array of the poll-list letters (written before the call)
+	pEvList  = 0x2C0 // 4 x 32 bytes: their event area
 )
 
 const (
@@ -148,11 +151,72 @@ var wasiFns = []wasiFn{
 // ---------------------------------------------------------------- letters
 
 type letter struct {
-	Name string   // e.g. "fd_read(0,iov64)"
-	Fn   string   // WASI function
-	Args []uint64 // well-formed arguments (all pointers inside the window)
-	Core bool     // member of the reduced alphabet used for the deepest words
-	fn   int      // index into wasiFns
+	Name  string   // e.g. "fd_read(0,iov64)"
+	Fn    string   // WASI function
+	Args  []uint64 // well-formed arguments (all pointers inside the window)
+	Setup []byte   // poll-list letters: subscription array the guest memory holds at pSubList when the call is made
+	Main  bool     // member of the main alphabet (all words of depth 3)
+	Core  bool     // member of the reduced alphabet used for the deepest words
+	List  bool     // member of the poll-list family
+	fn    int      // index into wasiFns
+}
+
+// Subscription atoms of the poll-list letters: every list (with repetition) of 0..4 atoms is a letter.
+// Userdata are pairwise distinct so that the ORDER of the events in the out area is observable.
+var pollAtoms = []struct {
+	name string
+	tag  byte
+	fd   uint32 // fd_read / fd_write
+	abs  bool   // clock: subscription_clock_abstime
+}{
+	{"clkR", 0, 0, false}, // monotonic, relative, one hour
+	{"clkA", 0, 0, true},  // realtime, absolute
+	{"rd0", 1, 0, false}, {"rd1", 1, 1, false}, {"rd2", 1, 2, false}, {"rd3", 1, 3, false},
+	{"wr0", 2, 0, false}, {"wr1", 2, 1, false}, {"wr2", 2, 2, false}, {"wr3", 2, 3, false},
+}
+
+func pollAtomBytes(k int, pos int) []byte {
+	a := pollAtoms[k]
+	b := make([]byte, 48)
+	le := binary.LittleEndian
+	le.PutUint64(b, 0xC180000000000000|uint64(k+1)<<8|uint64(pos+1)) // distinct per atom and per position
+	b[8] = a.tag
+	switch {
+	case a.tag == 0 && a.abs:
+		le.PutUint32(b[16:], 0)                       // realtime
+		le.PutUint64(b[24:], 1640995200*1000000000+5) // an absolute time
+		le.PutUint16(b[40:], 1)
+	case a.tag == 0:
+		le.PutUint32(b[16:], 1)
+		le.PutUint64(b[24:], hourNanos)
+	default:
+		le.PutUint32(b[16:], a.fd)
+	}
+	return b
+}
+
+// pollListLetters: all atom lists of length 0..4, in every order, with repetition (11 111 letters).
+func pollListLetters(fn int) []letter {
+	var out []letter
+	var rec func(prefix []int)
+	rec = func(prefix []int) {
+		var names []string
+		var setup []byte
+		for pos, k := range prefix {
+			names = append(names, pollAtoms[k].name)
+			setup = append(setup, pollAtomBytes(k, pos)...)
+		}
+		out = append(out, letter{Name: "poll_oneoff[" + strings.Join(names, ",") + "]", Fn: "poll_oneoff",
+			Args: []uint64{pSubList, pEvList, uint64(len(prefix)), pR1}, Setup: setup, List: true, fn: fn})
+		if len(prefix) == 4 {
+			return
+		}
+		for k := range pollAtoms {
+			rec(append(append([]int{}, prefix...), k))
+		}
+	}
+	rec(nil)
+	return out
 }
 
 func buildAlphabet() []letter {
@@ -175,7 +239,7 @@ func buildAlphabet() []letter {
 			core = true // the first choice of every function is always in the core alphabet
 			seenFn[fn] = true
 		}
-		ls = append(ls, letter{Name: fn + "(" + label + ")", Fn: fn, Args: args, Core: core, fn: idx})
+		ls = append(ls, letter{Name: fn + "(" + label + ")", Fn: fn, Args: args, Main: true, Core: core, fn: idx})
 	}
 	const (
 		atimSet = 1
@@ -289,6 +353,22 @@ func buildAlphabet() []letter {
 		if !seenFn[f.name] {
 			panic("no letter for " + f.name)
 		}
+	}
+	// poll-list letters; two of them are members of the main alphabet as well.
+	pollFn := -1
+	for i, f := range wasiFns {
+		if f.name == "poll_oneoff" {
+			pollFn = i
+		}
+	}
+	for _, l := range pollListLetters(pollFn) {
+		switch l.Name {
+		case "poll_oneoff[rd2,rd0,rd1]":
+			l.Main, l.Core = true, true
+		case "poll_oneoff[]":
+			l.Main = true
+		}
+		ls = append(ls, l)
 	}
 	return ls
 }
